@@ -208,7 +208,7 @@ func (v *Verifier) chunkStage(obls []*Obligation, dir string, perCheckMs int, wo
 		cur = nil
 	}
 	for _, o := range obls {
-		if o.IsCover || o.Result != "" || o.Kind == "frame-undeclared" {
+		if o.Result != "" || o.Kind == "frame-undeclared" {
 			continue
 		}
 		if len(cur) > 0 && (cur[0].Fn != o.Fn || cur[0].Theory != o.Theory || len(cur) >= chunkSize) {
@@ -262,11 +262,18 @@ func (v *Verifier) runChunk(id int, obls []*Obligation, dir string, perCheckMs i
 			sb.WriteByte('\n')
 		}
 		asserted = append(asserted[:len(asserted):len(asserted)], o.Cmds[len(asserted):]...)
-		sb.WriteString("(push 1)\n(assert (not " + o.Goal.S + "))\n(check-sat)\n(pop 1)\n")
+		if o.IsCover {
+			// cover: the path condition itself; "unsat" here means the path (or the contract) is contradictory
+			sb.WriteString("(push 1)\n(check-sat)\n(pop 1)\n")
+		} else {
+			sb.WriteString("(push 1)\n(assert (not " + o.Goal.S + "))\n(check-sat)\n(pop 1)\n")
+		}
 	}
 	file := filepath.Join(dir, fmt.Sprintf("chunk_%s_%d.smt2", sanitize(obls[0].Fn), id))
 	os.WriteFile(file, []byte(sb.String()), 0644)
-	defer os.Remove(file)
+	if os.Getenv("SODVC_KEEPCHUNK") == "" {
+		defer os.Remove(file)
+	}
 	t0 := time.Now()
 	cctx, cancel := context.WithTimeout(context.Background(), time.Duration(len(obls)*perCheckMs+20000)*time.Millisecond)
 	defer cancel()
@@ -302,6 +309,12 @@ func (v *Verifier) runChunk(id int, obls []*Obligation, dir string, perCheckMs i
 	for i, a := range answers {
 		if a == "unsat" {
 			o := obls[i]
+			if o.IsCover {
+				// the eager instantiation of the incremental mode refutes the path condition: vacuity
+				o.Result, o.Solver = "unsat", "z3-new"
+				o.Output = "z3-new (incremental): the path condition is unsatisfiable"
+				continue
+			}
 			o.Result, o.Solver = "unsat", "z3-new"
 			o.Ms = ms / int64(len(answers))
 			o.Output = fmt.Sprintf("z3-new (incremental, chunk of %d): unsat", len(obls))
@@ -331,7 +344,7 @@ func (v *Verifier) dischargeAll(obls []*Obligation, dir string, timeoutMs int, a
 		}()
 	}
 	for _, o := range obls {
-		if o.Result == "unsat" && !o.IsCover && !all {
+		if o.Result == "unsat" && (!all || o.IsCover) {
 			continue // decided by the chunk stage
 		}
 		ch <- o
